@@ -7,11 +7,14 @@ Mirrors, at the granularity "one outermost backend command plus the task-local c
 * cashews/wrapper/transaction.py   `_transaction : ContextVar`, `TransactionContextDecorator.__aenter__/
   __aexit__` (a nested block joins the outer transaction; the decorator form opens a fresh context object
   per call — repaired D12 — so the *form* of a block has no effect on what it does), `Transaction.commit/rollback`;
-* cashews/backends/transaction.py  `TransactionBackend.set/incr/get/delete/commit/rollback`,
-  `LockTransactionBackend._lock_updates/_unlock_updates`.
+* cashews/backends/transaction.py  `TransactionBackend.set (also with exist=)/exists/incr/get/delete/expire/commit/rollback`,
+  `LockTransactionBackend._lock_updates/_unlock_updates` (and its `set/incr/delete/expire`: lock first).
 
 Time is `Nat` in units u = 1/40 s: one harness tick (1/8 s) = 5u, the lock retry step (0.1 s) = 4u.
-Values are integers (the overlay semantics for other values is C03/C04's business).
+Values are integers (the overlay semantics for other values is C03/C04's business).  TTLs are not modelled:
+`expire k` is what it does to *values* — a read-modify-write that buffers the store's current value of `k`
+(under `k`'s lock in locked / serializable mode) so that the commit writes it back with the new TTL; the
+`set_many` commands of one commit (one per TTL group) are one step, as the harness releases them together.
 -/
 namespace CashewsVerif.TxSched
 
@@ -32,6 +35,8 @@ inductive Cmd where
   | incr (k : Nat) (n : Int)
   | get (k : Nat)
   | delete (k : Nat)
+  | expire (k : Nat)           -- `cache.expire(k, ttl)`: re-time the key (the TTL itself is not modelled)
+  | setx (k : Nat) (v : Int) (e : Bool)   -- `cache.set(k, v, exist=e)`: only if present (`e`) / only if absent; result 1 / 0
   | sleep (d : Nat)            -- `await asyncio.sleep(d/8)`: a suspension that is not a backend command
   | raise
   | nestIn (f : Form)
@@ -89,6 +94,8 @@ inductive PC where
   | lockSleep (k : Nat) (left : Nat) (wake : Nat) -- in `asyncio.sleep(0.1)` after a failed attempt
   | seedGet (k : Nat) (n : Int)                   -- parked before `backend.get(k, 0)` of `incr k n`
   | readGet (k : Nat)                             -- parked before `backend.get(k)` of `get k`
+  | expGet (k : Nat)                              -- parked before `backend.get(k, _empty)` of `expire k`
+  | existsGet (k : Nat) (v : Int) (e : Bool)      -- parked before `backend.exists(k)` of `set(k, v, exist=e)`
   | direct (c : Cmd)                              -- a task outside a transaction parked before the command itself
   | bodySleep (wake : Nat)
   | commitDel                                     -- parked before `delete_many`
@@ -149,6 +156,13 @@ def endOfProg (t : Task) : Task :=
     else afterCommit { t with prog := [] }
   else { t with prog := [], pc := .finished (.returned t.results) }
 
+/-- `TransactionBackend.set(key, value, exist=e)` once `self.exists(key)` is known to be `p`:
+`if exist is not None and await self.exists(key) is not exist: return False` /
+`_to_delete.discard(key); return await _local_cache.set(key, value)` (→ True) -/
+def setxApply (t : Task) (k : Nat) (v : Int) (e p : Bool) : Task :=
+  if p = e then { t with ov := t.ov.put k v, del := t.del.filter (· ≠ k), results := t.results ++ [some 1] }
+  else { t with results := t.results ++ [some 0] }
+
 /-- a command that needs no backend command (given the task's local state): `some` new local state.
 `none`: the task must park (lock needed, backend read needed, direct command, sleep) or raises. -/
 def localCmd (t : Task) : Cmd → Option Task
@@ -178,10 +192,36 @@ def localCmd (t : Task) : Cmd → Option Task
   | .delete k =>
     -- `_lock_updates(key); local.delete(key); _to_delete.add(key)`
     if t.ctx && holds t k then some { t with ov := t.ov.erase k, del := k :: t.del.filter (· ≠ k) } else none
+  | .expire k =>
+    -- LockTransactionBackend.expire: `_lock_updates(key)` first, whatever follows;
+    -- TransactionBackend.expire: `if key in _to_delete: return`,
+    -- `if local.exists(key): return local.expire(key, timeout)` (same value, new TTL),
+    -- else `value = backend.get(key, _empty)` …
+    if t.ctx && holds t k then
+      if k ∈ t.del then some t
+      else match t.ov.get k with
+        | some _ => some t
+        | none => none
+    else none
+  | .setx k v e =>
+    -- LockTransactionBackend.set: `_lock_updates(key)`; TransactionBackend.exists:
+    -- `if local.exists(key): return True; if key in _to_delete: return False; return backend.exists(key)`
+    if t.ctx && holds t k then
+      match t.ov.get k with
+      | some _ => some (setxApply t k v e true)
+      | none => if k ∈ t.del then some (setxApply t k v e false) else none
+    else none
   | .sleep _ => none
   | .raise => none
   | .nestIn _ => some { t with depth := t.depth + 1 }   -- `__aenter__` with a current transaction: `_inner = True`
   | .nestOut => some { t with depth := t.depth - 1 }    -- `__aexit__` of an inner block: nothing
+
+/-- `expire` of a key the transaction has neither written nor deleted, after `backend.get(key, _empty)` returned
+`cur`: `if value is _empty: return` / `local.set(key, value, expire=timeout)` — what the backend holds is buffered -/
+def expBuffer (t : Task) (k : Nat) (cur : Option Int) : Task :=
+  match cur with
+  | some v => { t with ov := t.ov.put k v, reads := t.reads ++ [cur] }
+  | none => { t with reads := t.reads ++ [cur] }
 
 /-- park before `set_lock`, or give up at once when the timeout allows no attempt -/
 def lockOrFail (t : Task) (k : Nat) (prog : List Cmd) : Task :=
@@ -201,6 +241,14 @@ def park (now : Nat) (t : Task) (c : Cmd) (rest : List Cmd) : Task :=
       if holds t k then { t with prog := rest, pc := .seedGet k n } else lockOrFail t k (c :: rest)
     else { t with prog := rest, pc := .direct c }
   | .get k => if t.ctx then { t with prog := rest, pc := .readGet k } else { t with prog := rest, pc := .direct c }
+  | .expire k =>
+    if t.ctx then
+      if holds t k then { t with prog := rest, pc := .expGet k } else lockOrFail t k (c :: rest)
+    else { t with prog := rest, pc := .direct c }
+  | .setx k v e =>
+    if t.ctx then
+      if holds t k then { t with prog := rest, pc := .existsGet k v e } else lockOrFail t k (c :: rest)
+    else { t with prog := rest, pc := .direct c }
   | .nestIn _ => t
   | .nestOut => t
 
@@ -261,6 +309,14 @@ def directStep (now : Nat) (store : Store) (lock : Locks) (t : Task) : Cmd → E
     { store := store, lock := lock, task := settle now t1.prog t1 }
   | .delete k =>
     { store := (Mut.directDel k).apply store, lock := lock, task := settle now t.prog t, muts := [.directDel k] }
+  | .setx k v e =>
+    -- Memory.set(exist=e): `if exist is not None and (await self._key_exist(key)) is not exist: return False`
+    let t1 := { t with results := t.results ++ [some (if (store k).isSome = e then 1 else 0)] }
+    { store := if (store k).isSome = e then (Mut.directSet k v).apply store else store, lock := lock,
+      task := settle now t1.prog t1, muts := if (store k).isSome = e then [.directSet k v] else [] }
+  | .expire _ =>
+    -- Memory.expire: `_set(key, value, timeout)` with the value it holds: no value changes
+    { store := store, lock := lock, task := settle now t.prog t }
   | _ => { store := store, lock := lock, task := t }
 
 /-- the task `tid` is released from its gate: it executes the backend command it was parked before and
@@ -291,6 +347,15 @@ def taskStep (tid now : Nat) (store : Store) (lock : Locks) (t : Task) : Eff :=
     { store := store, lock := lock, task := settle now t1.prog t1 }
   | .readGet k =>
     let t1 := { t with results := t.results ++ [store k], reads := t.reads ++ [store k] }
+    { store := store, lock := lock, task := settle now t1.prog t1 }
+  | .expGet k =>
+    -- `value = await self._backend.get(key, default=_empty); if value is _empty: return`
+    -- `await self._local_cache.set(key, value, expire=timeout)`: the store's current value is buffered
+    let t1 := expBuffer t k (store k)
+    { store := store, lock := lock, task := settle now t1.prog t1 }
+  | .existsGet k v e =>
+    -- `await self._backend.exists(key)`, then the rest of `TransactionBackend.set`
+    let t1 := setxApply { t with reads := t.reads ++ [store k] } k v e (store k).isSome
     { store := store, lock := lock, task := settle now t1.prog t1 }
   | .direct c => directStep now store lock t c
   | .commitDel =>
